@@ -167,6 +167,15 @@ End WF.
 Definition L_main : str := [95;95;109;97;105;110;95;95].              (* "__main__" *)
 Definition L_builtins : str := [98;117;105;108;116;105;110;115].      (* "builtins" *)
 
+Definition L_str_failed : str :=      (* "<exception str() failed>" *)
+  [60;101;120;99;101;112;116;105;111;110;32;115;116;114;40;41;32;102;97;105;108;101;100;62].
+Definition L_hint : str :=            (* ". Did you mean: " *)
+  [46;32;68;105;100;32;121;111;117;32;109;101;97;110;58;32].
+Example literals_spelled2 :
+  L_str_failed = s2l "<exception str() failed>"%string /\ L_hint = s2l ". Did you mean: "%string /\
+  L_main = s2l "__main__"%string /\ L_builtins = s2l "builtins"%string.
+Proof. repeat split; reflexivity. Qed.
+
 Section Live.
   Context (C : cc).
   (* FrameSummary.line is the stripped source line *)
@@ -177,6 +186,26 @@ Section Live.
   Definition std_type (e : live_exc) : str :=
     if str_eqb (ex_module e) L_main || str_eqb (ex_module e) L_builtins then ex_qualname e
     else ex_module e ++ [46] ++ ex_qualname e.
+  (* _safe_string(value, 'exception') *)
+  Definition std_base_msg (e : live_exc) : str :=
+    match ex_str e with Some s => s | None => L_str_failed end.
+  (* what the interpreter appends to the message at display time: nothing, or a
+     suggestion for NameError / AttributeError / ImportError.  None = the shown
+     text does not have the transcribed shape (fails the validation of the Spec). *)
+  Definition hint_of (e : live_exc) : option str :=
+    if str_eqb (ex_shown e) (exc_text (std_type e) (std_base_msg e)) then Some []
+    else match drop_prefix (std_type e ++ L_colon ++ std_base_msg e) (ex_shown e) with
+         | Some h => if startswith L_hint h then Some h else None
+         | None => None
+         end.
+  Definition std_msg (e : live_exc) : str :=
+    std_base_msg e ++ match hint_of e with Some h => h | None => [] end.
   Definition std_tb (fs : list live_frame) (e : live_exc) : tb :=
-    mkTb (map std_frame fs) (std_type e) (ex_str e).
+    mkTb (map std_frame fs) (std_type e) (std_msg e).
+  (* the ordinary case: str(value) works and the interpreter shows just "Type: str(value)" *)
+  Definition plain_exc (e : live_exc) : bool :=
+    match ex_str e with
+    | Some s => str_eqb (ex_shown e) (exc_text (std_type e) s)
+    | None => false
+    end.
 End Live.
